@@ -36,6 +36,12 @@ def run(ctx):
   ctx.expect("R-C13-SF", 33, "33 survival probabilities of the large-rank test")
   rule_ctor(ctx)
   rule_holdout(ctx)
+  rule_search(ctx)
+  # a local read on a path that has not bound it raises UnboundLocalError instead of producing the result (analysis shared with C18)
+  from . import c18 as _c18
+  n_def = _c18.rule_defined(ctx, "R-C13-DEFINED", "C13")
+  ctx.expect("R-C13-DEFINED", 8, "functions of random_test_suite")
+  ctx.expect("R-C13-SEARCH", 3, "lattice, multiplier, offset of FindBiasImpl")
   ctx.expect("R-C13-HOLDOUT", 1, "FindBiasImpl")
   ctx.expect("R-C13-CTOR", 6, "five constructor parameters + initial state")
   ctx.expect("R-C13-GATE", 1, "500-cycle gate")
@@ -581,3 +587,170 @@ def rule_holdout(ctx):
   if bias and not all(isinstance(t_[1], Poly) and any(t_[1] == as_poly(e.data["value"]) for e in bias) for t_ in rets):
     probs.append("the returned p-value is not the held-out bias")
   ctx.record(R, f.where, "p-value from blocks not used for fitting", not probs, "; ".join(sorted(set(probs))) or "GetLattice(sample[:T]) / Bias(sample[T:])")
+
+
+def rule_search(ctx):
+  """'lattice bias search for the truncated-LCG, Lehmer, java.util.Random and MWC generators reports failure': the search can only find a multiplier its
+  lattice contains, tries the reduced rows shortest first, and must measure (x c + d) mod n with the c it found and the d fitted for that c.
+  Decided on structure: (1) the basis built from the training blocks is the documented one (write table of GetLattice, with the arguments of the call
+  substituted); (2) the multiplier is row[0] mod n of the first reduced row with c0 != 0 and gcd(c0, n)^2 < n, else 1; (3) d = -PseudoAverage([x c mod n]) mod n
+  over the training blocks and the p-value is Bias(held-out blocks, n, [(c, d)]) with the same c."""
+  from pcstatic import wtable
+  R = "R-C13-SEARCH"
+  repo = ctx.repo
+  LS = "randomness_tests.lattice_suite"
+  g = repo.func(LS, "GetLattice")
+  gw = sym.Walker(repo, g)
+  gw.run()
+  f = repo.func(LS, "FindBiasImpl")
+  w = sym.Walker(repo, f)
+  w.run()
+  sample, N, Wp = (P("param", x) for x in f.params()[:3])
+  gparams = g.params()
+  calls = [e for e in w.events if e.kind == "call" and e.data["name"] == "repo:%s:GetLattice" % LS]
+  probs, und = [], None
+  if not calls:
+    ctx.incomplete(R, f.where, "lattice of the training blocks", "no GetLattice call")
+    return
+  tabs = []
+  for kind, val, st in gw.terminals:
+    if kind == "return" and wtable.feasible(st):
+      try:
+        tabs.append(wtable.extract(gw, st, val))
+      except Incomplete as ex:
+        und = str(ex)
+  if not tabs and und is None:
+    und = "GetLattice returns no matrix"
+  train = None
+  for e in calls:
+    args = {}
+    for i_, a_ in enumerate(e.data["args"]):
+      if i_ < len(gparams):
+        args[gparams[i_]] = a_
+    for k_, a_ in e.data["kwargs"].items():
+      args[k_] = a_
+    if set(args) != set(gparams[:3]) or not all(isinstance(a_, (Poly, int)) for a_ in args.values()):
+      und = "call arguments of GetLattice not resolved"
+      continue
+    A_, W_, N_ = (as_poly(args[p_]) for p_ in gparams[:3])
+    train = A_
+    w_none = any(fc[0] == "cmp" and fc[1] == "Is" and isinstance(fc[2], Poly) and fc[2] == Wp for fc in e.state.facts)
+    if not (N_ - N).is_zero():
+      probs.append("the modulus handed to GetLattice is %r" % (N_,))
+    if not ((W_ - Wp).is_zero() if not w_none else (W_.as_int() is not None and W_.as_int() > 1)):
+      probs.append("the weight handed to GetLattice is %r" % (W_,))
+    for tab in tabs:
+      try:
+        for m in (3, 4, 6):
+          env = [(sym.mk("len", P("param", gparams[0])).as_atom(), m)]
+          grid = wtable.instantiate(tab, env)
+          sub = [(P("param", gparams[0]).as_atom(), A_), (P("param", gparams[1]).as_atom(), W_), (P("param", gparams[2]).as_atom(), N_)]
+          grid = [[wtable.subst_all(c_, sub) for c_ in row] for row in grid]
+          size = m + 1
+          zero = Poly.const(0)
+          spec = [[zero] * size for _ in range(size)]
+          spec[0][0] = Poly.const(1)
+          for i in range(1, size):
+            spec[0][i] = sym.mk("idx", A_, Poly.const(i - 1)) * W_
+            spec[1][i] = W_
+            if i > 1:
+              spec[i][i] = N_ * W_
+          d = wtable.diff(grid, spec)
+          if d:
+            probs.append("with %d training blocks: %s" % (m, d))
+            break
+      except Incomplete as ex:
+        und = str(ex)
+      except IndexError as ex:
+        probs.append(str(ex))
+  if und:
+    ctx.incomplete(R, f.where, "lattice of the training blocks", und)
+  else:
+    ctx.record(R, f.where, "lattice of the training blocks", not probs, "; ".join(sorted(set(probs))) or "(1, a_i w ..), (0, w .. w), n w e_i for i >= 2, at 3, 4 and 6 training blocks")
+  # ---- the multiplier
+  probs = []
+  red = [e for e in w.events if e.kind == "call" and e.data["name"] == "repo:lll:reduce" and e.data["args"] and isinstance(e.data["args"][0], Poly)]
+  lat_vals = [as_poly(e.data["value"]) for e in calls]
+  if not red or not all(any(as_poly(e.data["args"][0]) == lv for lv in lat_vals) for e in red):
+    probs.append("the lattice is not handed to lll.reduce")
+  red_vals = [as_poly(e.data["value"]) for e in red]
+  loops = [li for li in w.loop_info.values() if isinstance(li["node"], ast.For) and li["visits"] and any(isinstance(v_["iter"], Poly) and any(v_["iter"] == rv for rv in red_vals) for v_ in li["visits"])]
+  if len(loops) != 1:
+    ctx.incomplete(R, f.where, "multiplier from the shortest usable row", "expected one loop over the reduced basis")
+    return
+  li = loops[0]
+  cands = set()
+  for v_ in li["visits"]:
+    k = as_poly(v_["k"])
+    C0 = sym.mk("mod", sym.mk("idx", sym.mk("idx", as_poly(v_["iter"]), k), Poly.const(0)), N)
+    cands.add(C0)
+    want_t = [("cmp", "NotEq", C0, 0), ("cmp", "Lt", sym.mk("gcd", C0, N) ** 2, N)]
+    nb = 0
+    for kind, val, st, since, vis in li["body_paths"]:
+      if vis is not v_:
+        continue
+      newf = st.facts[len(v_["head"].facts):]
+      rels = [_rel13(fc) for fc in newf]
+      acc = all(any(r_ is not None and r_ == _rel13(t_) for r_ in rels) for t_ in want_t)
+      carried = [n_ for n_, x_ in st.env.items() if isinstance(x_, Poly) and x_ == C0 and isinstance(v_["head"].env.get(n_), Poly) and v_["head"].env.get(n_) != C0]
+      if kind == "break":
+        nb += 1
+        if not acc:
+          probs.append("a row is accepted without c0 != 0 and gcd(c0, n)^2 < n (conditions on the path: %r)" % ([fc for fc in newf if fc[0] == "cmp"],))
+      elif kind in ("fall", "continue"):
+        if acc:
+          probs.append("a usable row does not end the search: a later, longer row replaces the multiplier")
+      else:
+        probs.append("the search is left by %s" % kind)
+    if nb == 0:
+      probs.append("no row ever ends the search")
+  # ---- offset and p-value
+  probs3 = []
+  bias = [e for e in w.events if e.kind == "call" and e.data["name"] == "repo:%s:Bias" % LS]
+  rets = [t_ for t_ in w.terminals if t_[0] == "return"]
+  if not bias or not rets or not all(isinstance(t_[1], Poly) and any(t_[1] == as_poly(e.data["value"]) for e in bias) for t_ in rets):
+    probs3.append("the result is not the p-value of Bias")
+  seen_c = set()
+  for e in bias:
+    a_ = e.data["args"]
+    tr = a_[2] if len(a_) > 2 else e.data["kwargs"].get("transforms")
+    if not (isinstance(tr, Seq) and len(tr.items) == 1 and isinstance(tr.items[0], Seq) and len(tr.items[0].items) == 2):
+      probs3.append("Bias is not given the single transform [(c, d)]")
+      continue
+    c_, d_ = as_poly(tr.items[0].items[0]), as_poly(tr.items[0].items[1])
+    seen_c.add(c_)
+    if len(a_) > 1 and not (as_poly(a_[1]) - N).is_zero():
+      probs3.append("Bias is given the modulus %r" % (a_[1],))
+    if not (c_.as_int() == 1 or c_ in cands):
+      probs3.append("the multiplier measured is %r, not the one found (row[0] mod n) or the default 1" % (c_,))
+    da = d_.as_atom()
+    okd = False
+    if da is not None and da.kind == "mod" and (as_poly(da.args[1]) - N).is_zero():
+      pa_ = (-as_poly(da.args[0])).as_atom()
+      if pa_ is not None and pa_.kind == "call" and repr(pa_.args[0]) == "lit('%s:PseudoAverage')" % LS and len(pa_.args) >= 3 and (as_poly(pa_.args[2]) - N).is_zero():
+        ma = as_poly(pa_.args[1]).as_atom()
+        if ma is not None and ma.kind == "map" and train is not None and as_poly(ma.args[2]) == train:
+          bv = ma.args[1]
+          want = sym.mk("mod", sym.mk("idx", train, Poly.atom(bv)) * c_, N)
+          okd = (as_poly(ma.args[0]) - want).is_zero()
+    if not okd:
+      probs3.append("the offset is %r, not -PseudoAverage([x c mod n for x in training blocks], n) mod n for the multiplier measured" % (d_,))
+  if not any(c_ in cands for c_ in seen_c):
+    probs.append("the multiplier found never reaches the measurement")
+  ctx.record(R, f.where, "multiplier from the shortest usable row", not probs, "; ".join(sorted(set(probs))) or "first reduced row with c0 = row[0] mod n != 0 and gcd(c0, n)^2 < n ends the search; default 1")
+  ctx.record(R, f.where, "offset and measurement", not probs3, "; ".join(sorted(set(probs3))) or "d = -PseudoAverage([x c mod n], n) mod n on the training blocks; Bias(held-out, n, [(c, d)])")
+
+
+def _rel13(fc):
+  """normal form of a comparison: (rel, l - r) with Gt / GtE mirrored"""
+  if not (isinstance(fc, tuple) and len(fc) == 4 and fc[0] == "cmp" and isinstance(fc[2], (Poly, int)) and isinstance(fc[3], (Poly, int))):
+    return None
+  l, r = (Poly.const(x) if isinstance(x, int) else as_poly(x) for x in (fc[2], fc[3]))
+  op = fc[1]
+  if op in ("Gt", "GtE"):
+    l, r = r, l
+    op = {"Gt": "Lt", "GtE": "LtE"}[op]
+  d = l - r
+  if op in ("Eq", "NotEq"):
+    return (op, repr(d)) if repr(d) <= repr(-d) else (op, repr(-d))
+  return (op, repr(d))
